@@ -70,27 +70,49 @@ theorem replace_chunks (pat rep : Bytes) (hne : pat ≠ []) (cs : List Bytes)
 
 /-! ### Templates -/
 
-inductive Seg where
-  | lit (t : Bytes)
-  | path
-  | host
-  | line
-  deriving Repr
+inductive Ph where
+  | path | host | line
+  deriving DecidableEq, Repr
 
-def Seg.text : Seg → Bytes
-  | .lit t => t
+def Ph.text : Ph → Bytes
   | .path => phPath
   | .host => phHost
   | .line => phLine
 
-/-- The format string a template stands for. -/
-def renderT (tm : List Seg) : Bytes := (tm.map Seg.text).flatten
+inductive Seg where
+  | lit (t : Bytes)
+  | ph (k : Ph)
+  deriving Repr
 
-def Seg.subst (p : Bytes) (h : Option Bytes) (l : Bytes) : Seg → Bytes
+/-- Which placeholders have been given a value. -/
+structure Sub where
+  path : Option Bytes := none
+  host : Option Bytes := none
+  line : Option Bytes := none
+
+def Sub.get (σ : Sub) : Ph → Option Bytes
+  | .path => σ.path
+  | .host => σ.host
+  | .line => σ.line
+
+def Sub.set (σ : Sub) (k : Ph) (v : Bytes) : Sub :=
+  match k with
+  | .path => { σ with path := some v }
+  | .host => { σ with host := some v }
+  | .line => { σ with line := some v }
+
+def Seg.sub (σ : Sub) : Seg → Bytes
   | .lit t => t
-  | .path => p
-  | .host => match h with | some h => h | none => phHost
-  | .line => l
+  | .ph k => match σ.get k with
+    | some v => v
+    | none => k.text
+
+/-- The format string a template stands for. -/
+def renderT (tm : List Seg) : Bytes := (tm.map (Seg.sub {})).flatten
+
+/-- The template with `{path}`, `{line}` and (when the host name is known) `{host}` replaced. -/
+def Seg.subst (p : Bytes) (h : Option Bytes) (l : Bytes) : Seg → Bytes :=
+  Seg.sub { path := some p, host := h, line := some l }
 
 def Seg.wf : Seg → Prop
   | .lit t => noBrace t = true
@@ -137,89 +159,150 @@ theorem replaceAll_map (tm : List Seg) (f g : Seg → Bytes) (pat rep : Bytes) (
   · simp [e, e2]
   · simp [e, e2]
 
-theorem noBrace_phs : noBrace phPath = false ∧ noBrace phHost = false ∧ noBrace phLine = false := by decide
+/-- The text after the `{` of a placeholder. -/
+def Ph.tail : Ph → Bytes
+  | .path => [0x70, 0x61, 0x74, 0x68, 0x7d]
+  | .host => [0x68, 0x6f, 0x73, 0x74, 0x7d]
+  | .line => [0x6c, 0x69, 0x6e, 0x65, 0x7d]
 
-def lineBytes : Option Nat → Bytes
-  | some n => natBytes n
-  | none => []
+theorem ph_text (k : Ph) : k.text = 0x7b :: k.tail ∧ noBrace k.tail = true ∧ noBrace k.text = false ∧ k.text ≠ [] := by
+  cases k <;> decide
 
-theorem pass_path (tm : List Seg) (hwf : ∀ seg ∈ tm, seg.wf) (p : Bytes) :
-    replaceAll (renderT tm) phPath p = (tm.map (Seg.subst p none phLine)).flatten := by
-  apply replaceAll_map tm Seg.text (Seg.subst p none phLine) phPath p (by decide)
+theorem ph_inert (k j : Ph) (hkj : j ≠ k) (rep : Bytes) : j.text ≠ k.text ∧ Inert k.text rep j.text := by
+  refine ⟨by cases k <;> cases j <;> first | exact absurd rfl hkj | decide, ?_⟩
+  apply inert_placeholder k.text rep j.text k.tail j.tail (ph_text k).1 (ph_text j).1 (ph_text j).2.1
+  intro rest
+  cases k <;> cases j <;> first
+    | exact absurd rfl hkj
+    | simp [Ph.text, phPath, phHost, phLine, List.isPrefixOf]
+
+theorem sub_set_same (σ : Sub) (k : Ph) (v : Bytes) : (σ.set k v).get k = some v := by cases k <;> rfl
+theorem sub_set_other (σ : Sub) (k j : Ph) (v : Bytes) (h : j ≠ k) : (σ.set k v).get j = σ.get j := by
+  cases k <;> cases j <;> first | exact absurd rfl h | rfl
+
+/-- **One pass**: replacing placeholder `k` by `v` in a template whose already substituted values are
+brace-free substitutes exactly the `{k}` segments. -/
+theorem pass (tm : List Seg) (hwf : ∀ seg ∈ tm, seg.wf) (σ : Sub) (k : Ph) (v : Bytes)
+    (hk : σ.get k = none) (hσ : ∀ j w, σ.get j = some w → noBrace w = true) :
+    replaceAll (tm.map (Seg.sub σ)).flatten k.text v = (tm.map (Seg.sub (σ.set k v))).flatten := by
+  obtain ⟨hk1, _, hk3, hk4⟩ := ph_text k
+  apply replaceAll_map tm (Seg.sub σ) (Seg.sub (σ.set k v)) k.text v hk4
   intro seg hs
   cases seg with
   | lit t =>
     have ht : noBrace t = true := hwf _ hs
-    exact Or.inr ⟨noBrace_ne t phPath ht noBrace_phs.1, inert_noBrace _ p t ht, rfl⟩
-  | path => exact Or.inl ⟨rfl, rfl⟩
-  | host =>
-    exact Or.inr ⟨by decide, inert_placeholder phPath p phHost _ _ rfl rfl (by decide)
-      (by intro rest; simp [phPath, phHost, List.isPrefixOf]), rfl⟩
-  | line =>
-    exact Or.inr ⟨by decide, inert_placeholder phPath p phLine _ _ rfl rfl (by decide)
-      (by intro rest; simp [phPath, phLine, List.isPrefixOf]), rfl⟩
+    refine Or.inr ⟨noBrace_ne t k.text ht hk3, ?_, rfl⟩
+    rw [hk1]; exact inert_noBrace _ v t ht
+  | ph j =>
+    by_cases hj : j = k
+    · subst hj
+      exact Or.inl ⟨by simp [Seg.sub, hk], by simp [Seg.sub, sub_set_same]⟩
+    · have hg : Seg.sub (σ.set k v) (.ph j) = Seg.sub σ (.ph j) := by simp [Seg.sub, sub_set_other σ k j v hj]
+      cases hw : σ.get j with
+      | none =>
+        have hf : Seg.sub σ (.ph j) = j.text := by simp [Seg.sub, hw]
+        obtain ⟨h1, h2⟩ := ph_inert k j hj v
+        exact Or.inr ⟨by rw [hf]; exact h1, by rw [hf]; exact h2, hg⟩
+      | some w =>
+        have hf : Seg.sub σ (.ph j) = w := by simp [Seg.sub, hw]
+        have hwb := hσ j w hw
+        refine Or.inr ⟨by rw [hf]; exact noBrace_ne w k.text hwb hk3, ?_, hg⟩
+        rw [hf, hk1]; exact inert_noBrace _ v w hwb
 
-theorem pass_host (tm : List Seg) (hwf : ∀ seg ∈ tm, seg.wf) (p h : Bytes) (hp : noBrace p = true) :
-    replaceAll (tm.map (Seg.subst p none phLine)).flatten phHost h =
-      (tm.map (Seg.subst p (some h) phLine)).flatten := by
-  apply replaceAll_map tm (Seg.subst p none phLine) (Seg.subst p (some h) phLine) phHost h (by decide)
-  intro seg hs
-  cases seg with
-  | lit t =>
-    have ht : noBrace t = true := hwf _ hs
-    exact Or.inr ⟨noBrace_ne t phHost ht noBrace_phs.2.1, inert_noBrace _ h t ht, rfl⟩
-  | path => exact Or.inr ⟨noBrace_ne p phHost hp noBrace_phs.2.1, inert_noBrace _ h p hp, rfl⟩
-  | host => exact Or.inl ⟨rfl, rfl⟩
-  | line =>
-    exact Or.inr ⟨(by decide : phLine ≠ phHost), inert_placeholder phHost h phLine _ _ rfl rfl (by decide)
-      (by intro rest; simp [phHost, phLine, List.isPrefixOf]), rfl⟩
+theorem noBrace_natBytes (n : Nat) : noBrace (natBytes n) = true := by
+  simp only [noBrace, List.all_eq_true, natBytes, List.mem_map]
+  rintro b ⟨c, hc, rfl⟩
+  have hd := Nat.isDigit_of_mem_toDigits (by decide) (by decide) hc
+  simp only [Char.isDigit, Bool.and_eq_true, decide_eq_true_eq] at hd
+  have h2 : c.toNat ≤ 57 := UInt32.le_iff_toNat_le.mp hd.2
+  simp only [bne_iff_ne, ne_eq]
+  intro e
+  have := congrArg UInt8.toNat e
+  simp [UInt8.toNat_ofNat'] at this
+  omega
 
-theorem pass_line (tm : List Seg) (hwf : ∀ seg ∈ tm, seg.wf) (p : Bytes) (host : Option Bytes)
-    (hp : noBrace p = true) (hh : ∀ h, host = some h → noBrace h = true) (l : Bytes) :
-    replaceAll (tm.map (Seg.subst p host phLine)).flatten phLine l =
-      (tm.map (Seg.subst p host l)).flatten := by
-  apply replaceAll_map tm (Seg.subst p host phLine) (Seg.subst p host l) phLine l (by decide)
-  intro seg hs
-  cases seg with
-  | lit t =>
-    have ht : noBrace t = true := hwf _ hs
-    exact Or.inr ⟨noBrace_ne t phLine ht noBrace_phs.2.2, inert_noBrace _ l t ht, rfl⟩
-  | path => exact Or.inr ⟨noBrace_ne p phLine hp noBrace_phs.2.2, inert_noBrace _ l p hp, rfl⟩
-  | host =>
-    cases host with
-    | some h =>
-      have hhh := hh h rfl
-      exact Or.inr ⟨noBrace_ne h phLine hhh noBrace_phs.2.2, inert_noBrace _ l h hhh, rfl⟩
-    | none =>
-      exact Or.inr ⟨(by decide : phHost ≠ phLine), inert_placeholder phLine l phHost _ _ rfl rfl (by decide)
-        (by intro rest; simp [phHost, phLine, List.isPrefixOf]), rfl⟩
-  | line => exact Or.inl ⟨rfl, rfl⟩
+theorem noBrace_lineBytes (line : Option Nat) : noBrace (lineBytes line) = true := by
+  cases line with
+  | none => rfl
+  | some n => exact noBrace_natBytes n
 
-/-- **File link target**: for a template of literal segments (without `{`) and the placeholders
-`{path}`, `{host}`, `{line}`, and a path and host name without `{`, the URL is the template with
-every placeholder replaced by its value — in particular it carries exactly the given absolute
-path, and the given line number wherever `{line}` occurs. -/
-theorem fileUrl_template (tm : List Seg) (hwf : ∀ seg ∈ tm, seg.wf) (p : Bytes) (host : Option Bytes)
+/-- **File link target, original substitution order** (`{path}` first): the path must be brace-free,
+or the later passes rewrite it. -/
+theorem fileUrlPathFirst_template (tm : List Seg) (hwf : ∀ seg ∈ tm, seg.wf) (p : Bytes) (host : Option Bytes)
     (hp : noBrace p = true) (hh : ∀ h, host = some h → noBrace h = true) (line : Option Nat) :
-    fileUrl (renderT tm) p host line = (tm.map (Seg.subst p host (lineBytes line))).flatten := by
-  unfold fileUrl
-  rw [pass_path tm hwf p]
+    fileUrlPathFirst (renderT tm) p host line = (tm.map (Seg.subst p host (lineBytes line))).flatten := by
+  unfold fileUrlPathFirst renderT
+  have e1 := pass tm hwf {} .path p rfl (by intro j w h; cases j <;> simp [Sub.get] at h)
+  simp only [Ph.text] at e1
+  rw [e1]
   cases host with
   | none =>
-    cases line with
-    | some n => exact pass_line tm hwf p none hp hh (natBytes n)
-    | none => exact pass_line tm hwf p none hp hh []
+    have e3 := pass tm hwf (({} : Sub).set .path p) .line (lineBytes line) rfl (by
+      intro j w h; cases j <;> simp [Sub.get, Sub.set] at h; subst h; exact hp)
+    simp only [Ph.text] at e3
+    simpa [Seg.subst, Sub.set] using e3
   | some h =>
+    have e2 := pass tm hwf (({} : Sub).set .path p) .host h rfl (by
+      intro j w hj; cases j <;> simp [Sub.get, Sub.set] at hj; subst hj; exact hp)
+    simp only [Ph.text] at e2
     simp only []
-    rw [pass_host tm hwf p h hp]
-    cases line with
-    | some n => exact pass_line tm hwf p (some h) hp hh (natBytes n)
-    | none => exact pass_line tm hwf p (some h) hp hh []
+    rw [e2]
+    have e3 := pass tm hwf ((({} : Sub).set .path p).set .host h) .line (lineBytes line) rfl (by
+      intro j w hj; cases j <;> simp [Sub.get, Sub.set] at hj
+      · subst hj; exact hp
+      · subst hj; exact hh h rfl)
+    simp only [Ph.text] at e3
+    simpa [Seg.subst, Sub.set] using e3
 
-/-- The values substituted are needed brace-free: a file name containing a placeholder is itself
-rewritten by the later passes (`{line}.txt` at line 3 links to `…/3.txt`). -/
+/-- **File link target, repaired order** (`{path}` last): no condition on the path at all — the URL
+carries exactly the given absolute path, whatever characters it contains. -/
+theorem fileUrlPathLast_template (tm : List Seg) (hwf : ∀ seg ∈ tm, seg.wf) (p : Bytes) (host : Option Bytes)
+    (hh : ∀ h, host = some h → noBrace h = true) (line : Option Nat) :
+    fileUrlPathLast (renderT tm) p host line = (tm.map (Seg.subst p host (lineBytes line))).flatten := by
+  unfold fileUrlPathLast renderT
+  cases host with
+  | none =>
+    have e2 := pass tm hwf {} .line (lineBytes line) rfl (by intro j w h; cases j <;> simp [Sub.get] at h)
+    simp only [Ph.text] at e2
+    simp only []
+    rw [e2]
+    have e3 := pass tm hwf (({} : Sub).set .line (lineBytes line)) .path p rfl (by
+      intro j w hj; cases j <;> simp [Sub.get, Sub.set] at hj; subst hj; exact noBrace_lineBytes line)
+    simp only [Ph.text] at e3
+    simpa [Seg.subst, Sub.set] using e3
+  | some h =>
+    have e1 := pass tm hwf {} .host h rfl (by intro j w h; cases j <;> simp [Sub.get] at h)
+    simp only [Ph.text] at e1
+    simp only []
+    rw [e1]
+    have e2 := pass tm hwf (({} : Sub).set .host h) .line (lineBytes line) rfl (by
+      intro j w hj; cases j <;> simp [Sub.get, Sub.set] at hj; subst hj; exact hh h rfl)
+    simp only [Ph.text] at e2
+    rw [e2]
+    have e3 := pass tm hwf ((({} : Sub).set .host h).set .line (lineBytes line)) .path p rfl (by
+      intro j w hj; cases j <;> simp [Sub.get, Sub.set] at hj
+      · subst hj; exact hh h rfl
+      · subst hj; exact noBrace_lineBytes line)
+    simp only [Ph.text] at e3
+    simpa [Seg.subst, Sub.set] using e3
+
+/-- **File link target** for whichever order the source has: brace-free host; and, only in the
+original order, a brace-free path. -/
+theorem fileUrl_template (tm : List Seg) (hwf : ∀ seg ∈ tm, seg.wf) (p : Bytes) (host : Option Bytes)
+    (hp : Generated.fileLinkPathLast = false → noBrace p = true)
+    (hh : ∀ h, host = some h → noBrace h = true) (line : Option Nat) :
+    fileUrl (renderT tm) p host line = (tm.map (Seg.subst p host (lineBytes line))).flatten := by
+  unfold fileUrl
+  cases hf : Generated.fileLinkPathLast with
+  | true => simpa using fileUrlPathLast_template tm hwf p host hh line
+  | false => simpa using fileUrlPathFirst_template tm hwf p host (hp hf) hh line
+
+/-- The witness `f:{path}` with the file `/{line}` at line 3: rewritten to `f:/3` by the original
+order, kept by the repaired one. -/
 theorem fileUrl_placeholder_in_path :
-    fileUrl (renderT [.lit [0x66, 0x3a], .path]) [0x2f, 0x7b, 0x6c, 0x69, 0x6e, 0x65, 0x7d] none (some 3) ≠
+    fileUrlPathFirst (renderT [.lit [0x66, 0x3a], .ph .path]) [0x2f, 0x7b, 0x6c, 0x69, 0x6e, 0x65, 0x7d] none (some 3) ≠
+      [0x66, 0x3a] ++ [0x2f, 0x7b, 0x6c, 0x69, 0x6e, 0x65, 0x7d] ∧
+    fileUrlPathLast (renderT [.lit [0x66, 0x3a], .ph .path]) [0x2f, 0x7b, 0x6c, 0x69, 0x6e, 0x65, 0x7d] none (some 3) =
       [0x66, 0x3a] ++ [0x2f, 0x7b, 0x6c, 0x69, 0x6e, 0x65, 0x7d] := by
   decide
 
